@@ -9,7 +9,7 @@ from harness import common as C
 from harness import probes
 
 PROP = "C07"
-TARGETS = ["IbicusModel.Props.C07"]
+TARGETS = ["IbicusModel.Props.C07", "IbicusModel.Props.Calendar", "IbicusModel.Props.CalendarAgree"]
 GEN = ["Windows"]
 
 
@@ -133,7 +133,7 @@ def run(tier, res, force_search=False):
     res.rule = ("cases = (calendar span kind, start date, length, L, S) drawn from one PRNG (VERIF_SEED); a case is non-trivial when "
                 "the series does not start on 1 Jan or the span/step combination differs; distinct = distinct (kind, min doy, max doy, span mod S, S, L) classes")
     res.trusted = C.BASE_TRUSTED + [
-        "calendar arithmetic (dates -> day of year / month / year) is done by Python's datetime and ibicus.utils.day_of_year; the model receives integer arrays",
+        "calendar arithmetic: ibicus.utils.day_of_year / month / year / season delegate to Python's datetime; Model.Calendar (proleptic Gregorian) is tied to them by the DrvCalendar correspondence on random and boundary dates in every accepted time encoding, and the harness' own independent calendar (datetime) judges the library on every time axis used",
         "numpy fancy-index assignment semantics (equal length or broadcast of a length-1 value) as modelled in Model.Skeleton.assignAt",
     ]
     res.assumptions = ["hook IBICUS_VERIF=1 NaN-fills result buffers so unassigned steps are observable",
@@ -142,7 +142,7 @@ def run(tier, res, force_search=False):
     lean_ok = C.lean_phase(res, PROP, GEN, TARGETS)
 
     n_kernel = 60 if tier == "quick" else 400
-    n_skel = 36 if tier == "quick" else 180
+    n_skel = 48 if tier == "quick" else 192
     if force_search or not lean_ok:
         n_kernel *= 3
 
@@ -236,6 +236,11 @@ def run(tier, res, force_search=False):
         mismatches.append({"op": "driver", "case": {}, "impl": "", "model": f"{type(ex).__name__}: {str(ex)[:400]}"})
     if mismatches:
         res.tie_broken.append(f"correspondence DrvWindows: {len(mismatches)} mismatches, first: {mismatches[0]}")
+    # ---- the calendar model (dates -> day of year / season / consecutive days / the inferred calendar) against the library
+    cal_mismatches = probes.calendar_correspondence(rng, tier, res, problems_all)
+    if cal_mismatches:
+        res.tie_broken.append(f"correspondence DrvCalendar: {len(cal_mismatches)} mismatches, first: {cal_mismatches[0]}")
+        mismatches = mismatches + cal_mismatches
 
     # ---- all window-using debiasers: finite output at every step (the property's consequence)
     n_deb = 6 if tier == "quick" else 40
